@@ -32,3 +32,24 @@
          (= (cborIntValue mt32 arg) v))))
 ; head length implied by the initial byte
 (define-fun cborHeadLen ((b0 Int)) Int (+ 1 (cborArgLen (mod b0 32))))
+; --- parser state helpers (state codes are the library's; the predicates are only used to phrase
+; representation invariants and progress measures, never as the oracle for values)
+(define-fun cborWidth ((minor Int)) Int (ite (= minor 24) 1 (ite (= minor 25) 2 (ite (= minor 26) 4 (ite (= minor 27) 8 0)))))
+(define-fun cborStartBit ((m Int)) Int (mod (div m 4) 2))
+(define-fun cborDefContainer ((m Int)) Bool (or (= m 128) (= m 160)))
+; recursion measure of the close cascade
+(define-fun cborOnValueMeasure ((m Int) (depth Int)) Int (ite (cborDefContainer m) (+ (* 3 depth) 3) 0))
+; value of a big-endian argument of w bytes given its bytes (unused ones ignored)
+(define-fun cborBE ((w Int) (b0 Int) (b1 Int) (b2 Int) (b3 Int) (b4 Int) (b5 Int) (b6 Int) (b7 Int)) Int
+  (ite (= w 1) b0 (ite (= w 2) (be2 b0 b1) (ite (= w 4) (be4 b0 b1 b2 b3) (be8 b0 b1 b2 b3 b4 b5 b6 b7)))))
+; event kinds (see ifaces.go): integer events
+(define-fun evIsInt ((k Int)) Bool (and (<= 9 k) (<= k 19)))
+; representation invariant of one parser state: the argument-width sub-states are only entered for
+; additional information 24..27 (every other value must have been refused when the head was read)
+(define-fun cborStateInv ((ma Int) (mi Int)) Bool (=> (or (= ma 0) (= ma 32) (= ma 3)) (and (<= 24 mi) (<= mi 27))))
+; states in which bytes of a partially received token may sit in the collect buffer
+(define-fun cborCollecting ((ma Int) (mi Int)) Bool
+  (or (and (or (= ma 0) (= ma 32) (= ma 3)) (<= 25 mi) (<= mi 27)) (= ma 250) (= ma 251) (= ma 96) (= ma 168)))
+; number of bytes the token in progress needs from the collect buffer: the buffer always holds fewer
+(define-fun cborNeed ((ma Int) (mi Int) (lc Int)) Int
+  (ite (or (= ma 0) (= ma 32) (= ma 3)) (cborWidth mi) (ite (= ma 250) 4 (ite (= ma 251) 8 (ite (or (= ma 96) (= ma 168)) lc 1)))))
